@@ -7,7 +7,7 @@ both as protobuf Metric messages through convert_response and as direct MetricDe
 import math
 import os
 
-from vf import clock, plugins, hostframe
+from vf import clock, plugins, hostframe, snapcheck
 from vf.rig import Rig, line_trigger
 from vf.snaprig import Workdir
 from vf.util import Rng, split_seeds, spec_seeds, replay_spec, short
@@ -50,9 +50,10 @@ def leaf(n, label, items, flag):
 '''
 VALUE_EXPRS = [None, None, '', 'n', 'n * 2', 'len(items)', 'weight(n)', 'FACTOR', 'float(n) / 4', 'flag', '-n',
                'label', 'items', 'None', 'nope_zz', '1/0', 'n / (n - n)', 'sum(items)', '10 ** 3', 'float("inf")',
-               '10 ** 400', '(n + 1) * 10 ** 400', 'complex(n, 1)', '[n]', 'b"5"', 'bail(n)']
+               '10 ** 400', '(n + 1) * 10 ** 400', 'complex(n, 1)', '[n]', 'b"5"', 'bail(n)',
+               'sum(i * n for i in items)', '(lambda: n + len(items))()']
 LABEL_EXPRS = ['label', 'n', 'REGION', 'len(items)', 'label.upper()', 'flag', 'weight(n)', 'nope_zz', 'items[99]',
-               'bail(n)']
+               'bail(n)', '"-".join(str(i + n) for i in items)']
 STATICS = ['fixed', 'eu', 7, True, 1.5, '', 0, False, 0.0]
 
 
@@ -63,8 +64,12 @@ def plan(tier, seed):
 
 def rec_eval(expr, frame):
     try:
-        return eval(expr, frame.f_globals, frame.f_locals), None
+        return snapcheck.eval_in_frame(expr, frame), None
     except BaseException as e:  # noqa
+        import os
+        if os.environ.get('VF_DEBUG_EVAL'):
+            import traceback
+            print('REF-EVAL', expr, repr(e), traceback.format_exc()[-400:])
         return None, e
 
 
